@@ -65,6 +65,12 @@ pub fn is_borrow_panic(msg: &str) -> bool {
     msg.contains("already") && msg.contains("borrowed")
 }
 
+/// A generation counter "would overflow": the documented panic is acceptable whenever a counter
+/// is within one increment step of its maximum (the step size is policy, not property).
+pub fn near_max(v: u64) -> bool {
+    v >= u32::MAX as u64 - 255
+}
+
 pub fn is_overflow_panic(msg: &str) -> bool {
     msg.contains("slot version overflow") || msg.contains("arch version overflow")
 }
